@@ -208,6 +208,12 @@ def eq_queries(days):
         {"ifaces": ["e1", "e0"], "attrs": ["dip", "proto"], "time": False, "iface": False,
          "cond": {"k": "not", "x": atom("dport", "<", [], 256)},
          "first": DAY0, "last": DAY0 + (days // 2) * 86400, "dir": "none"},
+        # network conditions with prefixes that are not byte aligned: the instrumented condition tree is one
+        # object shared by all workers, whatever it needs for masking must not be shared state
+        {"ifaces": ["e0", "e1"], "attrs": ["sip", "dip"], "time": True, "iface": False,
+         "cond": {"k": "or", "l": atom("snet", "=", [10, 128, 0, 0], 9),
+                  "r": {"k": "and", "l": atom("dnet", "!=", [10, 0, 0, 0], 9), "r": atom("snet", "=", [32, 1] + [0] * 14, 15)}},
+         "first": DAY0 - 1000, "last": end, "dir": "none"},
     ]
 
 
